@@ -164,10 +164,17 @@ def sym_value(expr, subs: dict, exact: bool):
             sub = {k: sympy.Rational(v.numerator, v.denominator) for k, v in subs.items()}
         else:
             sub = {k: sympy.Float(float(v)) for k, v in subs.items()}
+        # xreplace substitutes all symbols at once (structurally, hence simultaneously) and is several times faster
+        # than subs(simultaneous=True); subs is the fall-back when it does not produce a number
         try:
-            res = _finish_value(expr.subs(sub, simultaneous=True))
+            res = _finish_value(expr.xreplace(sub))
         except Exception as e:  # noqa: BLE001
             res = ("bad", f"evaluation raised {type(e).__name__}: {str(e)[:120]}")
+        if res[0] == "bad":
+            try:
+                res = _finish_value(expr.subs(sub, simultaneous=True))
+            except Exception as e:  # noqa: BLE001
+                res = ("bad", f"evaluation raised {type(e).__name__}: {str(e)[:120]}")
         if res[0] == "bad" and expr.has(sympy.Piecewise, sympy.logic.boolalg.BooleanFunction):
             res = _finish_value(lazy_eval(expr, sub))
             LAZY_USED[0] += 1
